@@ -397,10 +397,14 @@ def verify_function(model: Model, contract: Contract, timeout_ms=None, max_paths
     # not refuted before it (contradictory contract => everything after it would be vacuous)
     if phase != "enumerate":
         for r in results:
-            for name, n0, n1 in r.path.call_marks:
-                if n1 is None or n1 == n0:
-                    continue
-                if pc_refuted(r.path.pc[:n1])[0] == "proved" and pc_refuted(r.path.pc[:n0])[0] != "proved":
+            for mk in r.path.call_marks:
+                name, n0, n1 = mk[0], mk[1], mk[2]
+                nres = mk[3] if len(mk) > 3 else n0
+                if n1 is None or n1 == n0 or nres != n0:
+                    continue   # (a case split on the result's shape is baked into the postcondition: not checkable)
+                # the postcondition alone (without the case split on the result's shape) must not refute the path
+                pcs = r.path.pc[:n0] + r.path.pc[nres:n1]
+                if pc_refuted(pcs)[0] == "proved" and pc_refuted(r.path.pc[:n0])[0] != "proved":
                     rep.suspicious.append(f"assumed postcondition of {name} refutes the path condition")
     for r in results:
         rep.dropped.extend(r.path.dropped)
